@@ -381,8 +381,40 @@ class Analyzer:
 
   def assign(self, s, st):
     if len(s.targets) != 1:
-      return [Path(st, 'fall', None)]
+      # a = b = v: the value is evaluated once and stored into each target from left to right
+      if isinstance(s.value, ast.Call) and self._is_self_call(s.value):
+        st.problems.append((s, 'chained assignment of a self call is not modelled'))
+        return [Path(st, 'fall', None)]
+      paths = [Path(st, 'fall', None)]
+      for t_ in s.targets:
+        nxt = []
+        for p_ in paths:
+          if p_.exit != 'fall':
+            nxt.append(p_)
+            continue
+          one = ast.copy_location(ast.Assign(targets=[t_], value=s.value), s)
+          nxt.extend(self.assign(one, p_.state))
+        paths = nxt
+      return paths
     t = s.targets[0]
+    if isinstance(t, (ast.Tuple, ast.List)) and isinstance(s.value, (ast.Tuple, ast.List)) and len(t.elts) == len(s.value.elts) and \
+        any(norm_text(e) in (self.EVENTS, 'self._start_step', 'self._end_step') for e in t.elts):
+      # a, b = x, y on tracked fields: the right-hand sides are evaluated before any store; modelled pairwise when no
+      # right-hand side reads a tracked field that the statement also writes
+      written = set(norm_text(e) for e in t.elts)
+      if any(norm_text(x) in written for v_ in s.value.elts for x in ast.walk(v_)):
+        st.problems.append((s, 'tuple assignment %s reads what it writes: not modelled' % norm_text(s)[:60]))
+        return [Path(st, 'fall', None)]
+      paths = [Path(st, 'fall', None)]
+      for t_, v_ in zip(t.elts, s.value.elts):
+        nxt = []
+        for p_ in paths:
+          if p_.exit != 'fall':
+            nxt.append(p_)
+            continue
+          nxt.extend(self.assign(ast.copy_location(ast.Assign(targets=[t_], value=v_), s), p_.state))
+        paths = nxt
+      return paths
     tt = norm_text(t)
     v = s.value
     if tt == self.EVENTS:
